@@ -218,7 +218,7 @@ def affine(expr, var):
     return None
 
 
-CHAR_CLASS = {"is_ascii_digit": (48, 57), "is_ascii_uppercase": (65, 90), "is_ascii_lowercase": (97, 122)}
+CHAR_CLASS = {"is_ascii_digit": (48, 57), "is_ascii_uppercase": (65, 90), "is_ascii_lowercase": (97, 122), "is_ascii": (0, 127)}
 
 
 def interval_of(facts, var):
@@ -274,11 +274,13 @@ def interval_of(facts, var):
                 for c_ in tr[1]:
                     upd("Ne", c_)
             continue
-        mm = re.search(r"(is_ascii_digit|is_ascii_uppercase|is_ascii_lowercase)\((.*)\)$", e)
+        mm = re.search(r"(is_ascii_digit|is_ascii_uppercase|is_ascii_lowercase|is_ascii)\((.*)\)$", e)
         if mm and is_var(mm.group(2).lstrip("&")):
             if tr:
                 upd("Ge", CHAR_CLASS[mm.group(1)][0])
                 upd("Le", CHAR_CLASS[mm.group(1)][1])
+            elif mm.group(1) == "is_ascii":
+                upd("Ge", 128)
             continue
         sb = split_bin(e)
         if not sb:
